@@ -109,6 +109,8 @@ def main():
             results[n]["demo_exit_with_change"] = drc
         finally:
             sh("git -C /repo checkout -- .")
+            # evidence written while the change was applied does not describe the unchanged tree
+            sh(f"git -C {VERIF} checkout -- evidence")
         drc2, _ = demo(n)
         results[n]["demo_exit_without_change"] = drc2
         results[n]["demo_confirms"] = (results[n].get("demo_exit_with_change") not in (0, None)
